@@ -13,7 +13,44 @@ BAD_GIDS = ["", "x" * 2001, "a\ud800"]
 
 
 SEM_KINDS = ["Qualifier", "Extension", "Property", "Submodel", "SubmodelElementCollection", "Entity-sem",
-             "SubmodelElementList", "Operation"]
+             "SubmodelElementList", "Operation", "Property-listitem"]
+# HasSemantics objects that can be put into / taken out of a namespace during a history ("contain" ops); the
+# containment state is part of the model state for these kinds (etype of owner OSem)
+ATTACHABLE = [k for k in SEM_KINDS if k != "Submodel"]
+
+
+class Holder:
+    """puts an object into a container of a kind suitable for it and takes it out again"""
+    def __init__(self, kind, variant):
+        from basyx.aas import model
+        I = model.datatypes.Int
+        self.kind = kind
+        if kind == "Qualifier":
+            self.owner = [model.Property("h", I), model.Submodel("urn:h"), model.SubmodelElementCollection("h")][variant % 3]
+            self.set = self.owner.qualifier
+        elif kind == "Extension":
+            self.owner = [model.Submodel("urn:h"), model.Property("h", I)][variant % 2]
+            self.set = self.owner.extension
+        elif kind == "Property-listitem":
+            self.owner = model.SubmodelElementList("h", model.Property, value_type_list_element=I)
+            self.set = self.owner.value
+        else:
+            if variant % 3 == 0:
+                self.owner = model.Submodel("urn:h")
+                self.set = self.owner.submodel_element
+            elif variant % 3 == 1:
+                self.owner = model.SubmodelElementCollection("h")
+                self.set = self.owner.value
+            else:
+                self.owner = model.Entity("h", model.EntityType.CO_MANAGED_ENTITY)
+                self.set = self.owner.statement
+
+    def contain(self, obj, flag):
+        if flag and obj.parent is None:
+            self.set.add(obj)
+        elif not flag and obj.parent is not None:
+            self.set.remove(obj)
+
 
 
 def is_sem(kind):
@@ -55,6 +92,8 @@ def construct(kind, t, g, items):
         return model.Extension("x", **kw)
     if kind == "Property":
         return model.Property("p", I, **kw)
+    if kind == "Property-listitem":
+        return model.Property(None, I, **kw)
     if kind == "Submodel":
         return model.Submodel("urn:sm", **kw)
     if kind == "SubmodelElementCollection":
@@ -78,6 +117,7 @@ class OneShot:
 
 
 def as_arg(xs, flavour):
+    flavour = flavour % 4
     if flavour == 0:
         return list(xs)
     if flavour == 1:
@@ -145,7 +185,7 @@ def gen_case(rng, maxlen):
     r = rng.random()
     kind = "Entity" if r < 0.4 else "AssetInformation" if r < 0.65 else rng.choice(SEM_KINDS)
     entity = kind == "Entity"
-    t = rng.random() < 0.6 if entity else True
+    t = rng.random() < 0.6 if entity else (rng.random() < 0.5 if kind in ATTACHABLE else True)
     g = gen_g(rng, allow_bad=not is_sem(kind))
     xs = gen_xs(rng)
     if rng.random() < 0.7:     # bias towards constructible objects
@@ -160,7 +200,10 @@ def gen_case(rng, maxlen):
     ops = [gen_op(rng, entity) for _ in range(rng.randint(1, maxlen))]
     if is_sem(kind):
         ops = [o if not (o[0] == "setgaid" and o[1][0] == "bad") else ("setgaid", ("ok", 1)) for o in ops]
-    return (kind, t, g, xs, rng.randrange(4), ops)
+    if kind in ATTACHABLE:
+        ops = [("contain", rng.random() < 0.5) if rng.random() < 0.2 else o for o in ops]
+    # fl: bits 0-1 = flavour of the iterable arguments, higher bits = which container is used
+    return (kind, t, g, xs, rng.randrange(4) + 4 * rng.randrange(6), ops)
 
 
 # ---------------------------------------------------------------- SDK side
@@ -180,6 +223,8 @@ def snapshot(obj, kind, P):
     from basyx.aas import model
     ga, la = attrs(kind)
     t = (obj.entity_type is model.EntityType.SELF_MANAGED_ENTITY) if kind == "Entity" else True
+    if kind in ATTACHABLE:
+        t = id(obj.parent)
     g = getattr(obj, ga)
     items = list(getattr(obj, la))
     return (t, id(g) if is_sem(kind) else g, [id(x) for x in items])
@@ -189,6 +234,8 @@ def encode_state(obj, kind, P):
     from basyx.aas import model
     ga, la = attrs(kind)
     t = 1 if (kind != "Entity" or obj.entity_type is model.EntityType.SELF_MANAGED_ENTITY) else 0
+    if kind in ATTACHABLE:
+        t = 1 if obj.parent is not None else 0
     g = getattr(obj, ga)
     if is_sem(kind):
         gi = 0 if g is None else ([id(x) for x in _SEM].index(id(g)) if id(g) in [id(x) for x in _SEM] else -1)
@@ -222,11 +269,11 @@ def wf_text(obj, kind):
     return None
 
 
-def apply_op(obj, op, P, kind="Entity"):
+def apply_op(obj, op, P, kind="Entity", alias=None):
     """performs the op through the public API; returns the value of pop() or None"""
     from basyx.aas import model
     ga, la = attrs(kind)
-    L = getattr(obj, la)
+    L = getattr(obj, la) if alias is None else alias
     k = op[0]
     if k == "append":
         L.append(P[op[1]])
@@ -308,11 +355,24 @@ def run_sdk(case, with_trace=True):
     m = wf_text(obj, entity)
     if m:
         fail = (-1, "constructor accepted: " + m)
+    holder = None
+    if entity in ATTACHABLE:
+        holder = Holder(entity, fl // 4)
+        holder.contain(obj, t)
+    elif entity == "Entity" and (fl // 4) % 2:
+        # the entity rules do not depend on containment: the same history inside a namespace (not a model state)
+        Holder("Entity-sem", fl // 8).contain(obj, True)
     trace = [[[0]] + encode_state(obj, entity, P)]
+    # alias mode: all list operations go through the list object obtained once, before any setter ran
+    alias = getattr(obj, attrs(entity)[1]) if (fl // 4) % 3 == 1 else None
     for k, op in enumerate(ops):
         before = snapshot(obj, entity, P)
         try:
-            v = apply_op(obj, op, P, entity)
+            if op[0] == "contain":
+                holder.contain(obj, op[1])
+                v = None
+            else:
+                v = apply_op(obj, op, P, entity, alias)
             out = [0] if v is None else [0, P.index(v)]
             m = wf_text(obj, entity)
             if m and not fail:
@@ -376,7 +436,7 @@ def coq_op(op):
         return f"DelSlice {coq_oz(op[1])} {coq_oz(op[2])}"
     if k == "setlist":
         return f"SetList {coq_nl(op[1])}"
-    if k == "settype":
+    if k in ("settype", "contain"):
         return f"SetType {'true' if op[1] else 'false'}"
     if k == "setgaid":
         return f"SetGaid {coq_g(op[1])}"
@@ -389,7 +449,7 @@ def coq_owner(kind):
 
 def coq_case(case, trace):
     entity, t, g, xs, fl, ops = case
-    return (f"({coq_owner(entity)}, {'true' if (t or entity != 'Entity') else 'false'}, {coq_g(g)}, {coq_nl(xs)}, "
+    return (f"({coq_owner(entity)}, {'true' if (t or entity not in ['Entity'] + ATTACHABLE) else 'false'}, {coq_g(g)}, {coq_nl(xs)}, "
             + (coq_list(coq_op(o) for o in ops) if ops else "(@nil op)") + ", " + coq_z(common.zhash_d(trace, 3)) + ")")
 
 
@@ -415,9 +475,16 @@ def signature(case, k, msg):
     if k >= 0 and op in ("extend", "iadd", "setlist", "setslice", "setxslice"):
         flav = ":iterator" if case[5][k][-1] in (1, 2) else ":list"
     if k < 0:
-        flav = ":iterator" if case[4] in (1, 2) else ":list"
+        flav = ":iterator" if case[4] % 4 in (1, 2) else ":list"
     m = re.sub(r"'[^']*'|\d+", "_", msg.split(":")[0] if "AASd" not in msg else msg)[:50]
-    return f"C02:{entity}:{op}{flav}:{m}"
+    cont = ""
+    if entity in ATTACHABLE:
+        state = case[1]
+        for o in case[5][:max(k, 0)]:
+            if o[0] == "contain":
+                state = o[1]
+        cont = ":contained" if state else ":free-standing"
+    return f"C02:{entity}{cont}:{op}{flav}:{m}"
 
 
 PRELUDE = ("From Coq Require Import List ZArith Bool.\n"
@@ -440,12 +507,15 @@ def exhaustive_cases(maxlen):
         for g in (("none",), ("ok", 0)):
             for xs in ([], [0], [0, 1]):
                 starts.append((kind, True, g, xs))
+                if kind in ATTACHABLE:
+                    starts.append((kind, False, g, xs))     # free-standing as well as contained
+    alpha_s = alpha_a + [("contain", True), ("contain", False)]
     cases = []
     for (entity, t, g, xs) in starts:
-        alpha = alpha_e if entity == "Entity" else alpha_a
+        alpha = alpha_e if entity == "Entity" else alpha_s if entity in ATTACHABLE else alpha_a
         for L in range(1, maxlen + 1):
             for seq in itertools.product(alpha, repeat=L):
-                cases.append((entity, t, g, xs, 1, list(seq)))
+                cases.append((entity, t, g, xs, 1 + 4 * (len(cases) % 6), list(seq)))
     return cases
 
 
@@ -534,7 +604,7 @@ def frag_lists(chk, can_eval=True):
         tr, _ = run_sdk(small)
         entity, t, g, xs, fl, ops = small
         mt = common.coq_eval("C02l", PRELUDE, f"list_case_trace {coq_owner(entity)} "
-                             f"{'true' if (t or entity != 'Entity') else 'false'} {coq_g(g)} {coq_nl(xs)} "
+                             f"{'true' if (t or entity not in ['Entity'] + ATTACHABLE) else 'false'} {coq_g(g)} {coq_nl(xs)} "
                              + coq_list(coq_op(o) for o in ops))
         chk.tie_broken("correspondence", {"fragment": "ConstrainedList/Entity/AssetInformation", "n_disagreements": len(bad),
                                           "case": repr(small), "sdk_trace": tr, "model_trace": mt})
